@@ -1,6 +1,7 @@
 """Termination / wake-up rules: T1 release-obligation table, T2 join of both
 halves, T3 wake-up typestate of hand-written poll functions, U1/U2 end of
 stream bookkeeping (C04, C05; reused by C07/C08)."""
+import re
 from analysis import (E, Src, awaits, expr_operand, expr_place, expr_local, fmt_expr, fmt_src, get_defs, guards_of,
                       strip_proj, strip_refs, switch_expr, walk_expr)
 from facts import callee_path, is_param_call
@@ -104,6 +105,8 @@ def release_sites(ctx):
                 continue
             if not holder_ty(ctx, a0["pl"]["ty"]):
                 continue
+            if re.search(r"Option<&(mut )?[^>]*Sender<", a0["pl"]["ty"]):
+                continue        # `holder.as_mut().take()`: takes a borrowed view out of a temporary, the sender stays where it is
             if p in closers:
                 roles = holder_roles(ctx, b, e=expr_operand(b, a0))
             else:
